@@ -329,9 +329,11 @@ pub struct Program {
 
 thread_local! {
     static NEXT_OP: RefCell<usize> = const { RefCell::new(0) };
+    pub static PENDING: RefCell<Vec<usize>> = const { RefCell::new(Vec::new()) };
 }
 pub fn reset_ops() {
     NEXT_OP.with(|n| *n.borrow_mut() = 0);
+    PENDING.with(|p| p.borrow_mut().clear());
     POOL.with(|p| p.borrow_mut().clear());
     CTXMAP.with(|p| p.borrow_mut().clear());
     STREAMS.with(|p| p.borrow_mut().clear());
@@ -354,10 +356,12 @@ fn put(h: usize, b: HandleBox) {
 
 fn begin(c: usize, h: usize, op: &str, m: Option<usize>) -> usize {
     let o = fresh_op();
-    emit(format!("begin {} {} {} {} {}", o, c, h, op, m.map(|m| m.to_string()).unwrap_or("-".into())));
+    emit(format!("begin {} {} {} {} {}", o, c, aid(h), op, m.map(|m| m.to_string()).unwrap_or("-".into())));
+    PENDING.with(|p| p.borrow_mut().push(o));
     o
 }
 fn ret(o: usize, r: String) {
+    PENDING.with(|p| p.borrow_mut().retain(|x| *x != o));
     emit(format!("ret {} {}", o, r));
 }
 fn reply_str(r: &Result<Reply>) -> String {
@@ -528,6 +532,7 @@ async fn exec_op(c: usize, op: Op) {
                     Some(r) => ret(o, reply_str(&r)),
                     None => {
                         drop(f);
+                        PENDING.with(|p| p.borrow_mut().retain(|x| *x != o));
                         emit(format!("cdrop {}", o));
                     }
                 }
